@@ -65,7 +65,7 @@ IntervalBad(S) ==
     \cup (IF TLess(lastS, S) THEN {} ELSE {<<"samples-not-increasing", i>>})
 
 EventBad(E) ==
-  (IF E.before # 0 /\ E.after # 0 /\ E.before # E.after THEN {} ELSE {<<"not-sharp", i, E.l>>})
+  (IF E.before = 0 \/ E.after = 0 \/ E.before # E.after THEN {} ELSE {<<"not-sharp", i, E.l>>})   \* 0 = undecided
   \cup (IF E.after = 0 \/ LabelOK(Cls[E.l], E.lab, E.after) THEN {} ELSE {<<"label", i, E.l>>})
 
 TInit == tr \in 1..Len(Traces) /\ i = 1 /\ lastS = None /\ seen = <<>> /\ bad = {}
